@@ -95,3 +95,48 @@ impl<'a> vstd::std_specs::convert::FromSpecImpl<&'a BigNum> for u64 {
     open spec fn from_spec(v: &'a BigNum) -> u64 { v.0 }
 }
 impl<'a> From<&'a BigNum> for u64 { #[verifier::external_body] fn from(v: &'a BigNum) -> (r: u64) { unimplemented!() } }
+
+// ---- add_inputs_from: std pieces and the structure of a MultiAsset as far as the per-asset passes need it (ASSUMED)
+/// `(0..n).collect()` into a Vec / a BTreeSet
+#[verifier::external_body] pub fn range_vec_(n: usize) -> (r: Vec<usize>) ensures r@.len() == n, forall|k: int| 0 <= k < n ==> r@[k] == k { unimplemented!() }
+#[verifier::external_body] pub fn range_set_(n: usize) -> (r: BTreeSet<usize>) ensures r@.finite(), forall|x: usize| r@.contains(x) <==> x < n { unimplemented!() }
+/// `v.iter().any(|o| o.amount.multiasset.is_some())`
+#[verifier::external_body] pub fn any_output_with_assets_(v: &Vec<TransactionOutput>) -> (r: bool)
+    ensures r == exists|k: int| 0 <= k < v@.len() && (#[trigger] v@[k]).amount.multiasset is Some { unimplemented!() }
+opaque_types!(PolicyID, AssetName, Assets);
+clone_eq!(PolicyID, AssetName, Assets);
+/// the abstract asset id (value_model) of a (policy, asset name) pair
+pub uninterp spec fn aid(p: PolicyID, n: AssetName) -> AssetId;
+pub uninterp spec fn ma_get(ma: MultiAsset, p: PolicyID) -> Option<Assets>;
+pub uninterp spec fn as_get(a: Assets, n: AssetName) -> Option<BigNum>;
+impl MultiAsset {
+    /// the (policy, assets) entries in iteration order
+    pub uninterp spec fn policies(&self) -> Seq<(PolicyID, Assets)>;
+    #[verifier::external_body] pub fn get(&self, p: &PolicyID) -> (r: Option<Assets>) ensures r == ma_get(*self, *p) { unimplemented!() }
+    #[verifier::external_body] pub fn policies_(&self) -> (r: Vec<(PolicyID, Assets)>) ensures r@ == self.policies() { unimplemented!() }
+}
+impl Assets {
+    pub uninterp spec fn entries(&self) -> Seq<(AssetName, BigNum)>;
+    #[verifier::external_body] pub fn get(&self, n: &AssetName) -> (r: Option<BigNum>) ensures r == as_get(*self, *n) { unimplemented!() }
+    #[verifier::external_body] pub fn entries_(&self) -> (r: Vec<(AssetName, BigNum)>) ensures r@ == self.entries() { unimplemented!() }
+}
+pub open spec fn aid_at(pols: Seq<(PolicyID, Assets)>, i: int, j: int) -> AssetId { aid(pols[i].0, pols[i].1.entries()[j].0) }
+/// quantity of an asset = what the two lookups find (absent = 0); iteration yields exactly the entries the lookups find; every asset held
+/// in a positive quantity is reached by the double iteration
+pub broadcast axiom fn ax_ma_qty(ma: MultiAsset, p: PolicyID, n: AssetName)
+    ensures #[trigger] ma_qty(ma, aid(p, n)) == (match ma_get(ma, p) { Some(a) => match as_get(a, n) { Some(x) => x.0 as nat, None => 0nat }, None => 0nat });
+pub axiom fn ax_ma_iter(ma: MultiAsset)
+    ensures forall|i: int| 0 <= i < ma.policies().len() ==> ma_get(ma, (#[trigger] ma.policies()[i]).0) == Some(ma.policies()[i].1),
+            forall|a: Assets, j: int| 0 <= j < a.entries().len() ==> as_get(a, (#[trigger] a.entries()[j]).0) == Some(a.entries()[j].1),
+            forall|x: AssetId| ma_qty(ma, x) > 0 ==> exists|i: int, j: int| 0 <= i < ma.policies().len() && 0 <= j < ma.policies()[i].1.entries().len() && #[trigger] aid_at(ma.policies(), i, j) == x;
+/// the two selectors add_inputs_from uses
+pub open spec fn coin_q() -> spec_fn(Value) -> Option<BigNum> { |v: Value| Some(v.coin) }
+pub open spec fn asset_q(p: PolicyID, n: AssetName) -> spec_fn(Value) -> Option<BigNum> {
+    |v: Value| match v.multiasset { Some(ma) => match ma_get(ma, p) { Some(a) => as_get(a, n), None => None }, None => None }
+}
+pub open spec fn sel_cmp_ok() -> bool { vstd::laws_cmp::obeys_cmp::<usize>() && vstd::laws_cmp::obeys_cmp::<&TransactionInput>() }
+// derived comparison traits of TransactionInput (ASSUMED lawful: `sel_cmp_ok`)
+impl PartialEq for TransactionInput { #[verifier::external_body] fn eq(&self, o: &TransactionInput) -> bool { unimplemented!() } }
+impl Eq for TransactionInput {}
+impl PartialOrd for TransactionInput { #[verifier::external_body] fn partial_cmp(&self, o: &TransactionInput) -> Option<core::cmp::Ordering> { unimplemented!() } }
+impl Ord for TransactionInput { #[verifier::external_body] fn cmp(&self, o: &TransactionInput) -> core::cmp::Ordering { unimplemented!() } }
